@@ -56,7 +56,8 @@ Inductive error :=
 | EAssertBudget               (* assert len(running_trials_ids) <= self.n_workers *)
 | EResumeNotPaused (t : nat)  (* assert trial.status == Status.paused in resume_trial *)
 | EResumeUnknown (t : nat)    (* assert trial_id < len(self.trial_ids) *)
-| EFailureLimit (t : nat).    (* ValueError(f"Trial - {trial_id} failed") from _handle_failure *)
+| EFailureLimit (t : nat)     (* ValueError(f"Trial - {trial_id} failed") from _handle_failure *)
+| ECkptMissing (k : nat).     (* backend.copy_checkpoint(src_trial_id=k, ...) raised inside start_trial *)
 Inductive outcome := Normal | Raised (e : error) | OutOfFuel.
 
 Inductive event :=
@@ -362,11 +363,26 @@ Definition schedule_new_task (st : state) : state * sched_out :=
       else (st, SErr (EResumeUnknown id))
   end.
 
+(* A fault inside TrialBackend.start_trial: new_trial_id(); copy_checkpoint(src, tgt) RAISES when there is no
+   checkpoint of trial src (ScriptedBackend: no trial of that id was ever started) - before the id is appended to
+   trial_ids and before anything is scheduled; the exception leaves the try block of run(). *)
+Definition ckpt_missing (st : state) : option nat :=
+  match o_sug o (s_ns st) with
+  | SStart _ (Some k) => if Nat.ltb k (s_ntrials st) then None else Some k
+  | _ => None
+  end.
+Definition failed_start (st : state) : state :=
+  emit (ESSuggest (s_ntrials st) (o_sug o (s_ns st))) (set_ns st (S (s_ns st))).
+
 Fixpoint schedule_k (k : nat) (st : state) : state * sched_out :=
   match k with
   | O => (st, SOk)
-  | S k' => let '(st', r) := schedule_new_task st in
-            match r with SOk => schedule_k k' st' | _ => (st', r) end
+  | S k' =>
+      match ckpt_missing st with
+      | Some j => (failed_start st, SErr (ECkptMissing j))
+      | None => let '(st', r) := schedule_new_task st in
+                match r with SOk => schedule_k k' st' | _ => (st', r) end
+      end
   end.
 
 Definition sleep (st : state) : state := emit ECbSleep st.
@@ -521,7 +537,7 @@ Definition event_eqb (a b : event) : bool := list_eqb Z.eqb (event_code a) (even
 Definition error_code (e : error) : list Z :=
   match e with
   | ENoMetrics t => [1; zn t] | EAssertBudget => [2] | EResumeNotPaused t => [3; zn t]
-  | EResumeUnknown t => [4; zn t] | EFailureLimit t => [5; zn t]
+  | EResumeUnknown t => [4; zn t] | EFailureLimit t => [5; zn t] | ECkptMissing k => [6; zn k]
   end%Z.
 Definition outcome_code (x : outcome) : list Z :=
   match x with Normal => [0%Z] | Raised e => 1%Z :: error_code e | OutOfFuel => [2%Z] end.
